@@ -104,7 +104,7 @@ func randOverrides(r *rand.Rand) *fosite.ClientLifespanConfig {
 }
 
 func c07World(k c07cfg, ov *fosite.ClientLifespanConfig) *world.World {
-	w := world.New(world.Opts{JWTAccess: k.JWT, Mode: world.Mode{DB: k.DB}, Cfg: func(c *fosite.Config) {
+	w := world.New(world.Opts{JWTAccess: k.JWT, Mode: world.Mode{DB: k.DB, Hydrate: k.JWT}, Cfg: func(c *fosite.Config) {
 		c.AccessTokenLifespan, c.RefreshTokenLifespan, c.AuthorizeCodeLifespan = k.AT, k.RT, k.Code
 		c.IDTokenLifespan, c.DeviceAndUserCodeLifespan, c.PushedAuthorizeContextLifespan = k.ID, k.Dev, k.PAR
 		c.GrantTypeJWTBearerMaxDuration = 10 * 365 * 24 * time.Hour
@@ -452,7 +452,7 @@ func c07ShippedSessions(c *run.Ctx, r *rand.Rand, id string, k c07cfg, ov *fosit
 		}
 		return &fosite.DefaultSession{Subject: sub}
 	}
-	w := world.New(world.Opts{JWTAccess: k.JWT, Mode: world.Mode{DB: k.DB}, SessFactory: factory, Cfg: func(cfg *fosite.Config) {
+	w := world.New(world.Opts{JWTAccess: k.JWT, Mode: world.Mode{DB: k.DB, Hydrate: !k.JWT}, SessFactory: factory, Cfg: func(cfg *fosite.Config) {
 		cfg.AccessTokenLifespan, cfg.RefreshTokenLifespan, cfg.AuthorizeCodeLifespan = k.AT, k.RT, k.Code
 	}})
 	sc := []string{"offline", "fosite"}
